@@ -62,6 +62,7 @@ class Interp(OpsMixin, BuiltinsMixin):
         self.callstack = []
         self.watch = {}
         self.stubs = {}
+        self.missing_modules = set()
         self.notes = []
         self.sym_counter = 0
         self.fork_limit = 4096
@@ -262,7 +263,13 @@ class Interp(OpsMixin, BuiltinsMixin):
                 self.bind_name(top, self.import_module(top, frame, s), frame)
 
     def import_module(self, name, frame, node):
+        if name.split(".")[0] in self.missing_modules:
+            self.event("import-missing", name=name, where=frame.where(node))
+            raise PyRaise(Instance(self.bclasses["ModuleNotFoundError"], ("No module named '%s'" % name,)), node, frame.where(node))
         m = self.load_module(name)
+        if m.external and self.module_path(name.split(".")[0]) is not None:
+            self.event("import-unresolved", module=name, name="", where=frame.where(node))
+            raise PyRaise(Instance(self.bclasses["ModuleNotFoundError"], ("No module named '%s'" % name,)), node, frame.where(node))
         if m.external:
             if name.split(".")[0] in ("sgio", "iscsi"):
                 self.event("import-binding", name=name, where=frame.where(node))
@@ -271,6 +278,8 @@ class Interp(OpsMixin, BuiltinsMixin):
 
     def st_ImportFrom(self, s, frame):
         modname = s.module or ""
+        if not s.level and modname.split(".")[0] in self.missing_modules:
+            raise PyRaise(Instance(self.bclasses["ModuleNotFoundError"], ("No module named '%s'" % modname,)), s, frame.where(s))
         if s.level:
             base = frame.module.name
             is_pkg = frame.module.path and os.path.basename(frame.module.path) == "__init__.py"
@@ -280,6 +289,9 @@ class Interp(OpsMixin, BuiltinsMixin):
             parts = parts[: len(parts) - (s.level - 1)] if s.level > 1 else parts
             modname = ".".join(parts + ([s.module] if s.module else []))
         m = self.load_module(modname)
+        if m.external and modname and self.module_path(modname.split(".")[0]) is not None:
+            self.event("import-unresolved", module=modname, name="", where=frame.where(s))
+            raise PyRaise(Instance(self.bclasses["ModuleNotFoundError"], ("No module named '%s'" % modname,)), s, frame.where(s))
         for a in s.names:
             if a.name == "*":
                 if m.external:
@@ -291,7 +303,11 @@ class Interp(OpsMixin, BuiltinsMixin):
                     if n in m.env:
                         self.bind_name(n, m.env[n], frame)
                     else:
-                        self.event("import-unresolved", module=modname, name=n, where=frame.where(s))
+                        sub = self.load_module(modname + "." + n)
+                        if not sub.external:
+                            self.bind_name(n, sub, frame)
+                        else:
+                            self.event("import-unresolved", module=modname, name=n, where=frame.where(s))
                 continue
             if m.external:
                 v = External("%s.%s" % (modname, a.name))
